@@ -114,6 +114,16 @@ type storeAcct struct {
 	printed  int
 	loadQ    [][]ipfslog.Entry // heads of every replicator Load call, in order (to print)
 	printedQ int
+	rev      []revent // the replicator's steps, in the order its lock sections ran (to print)
+	printedR int
+}
+
+// revent is one step of a replicator, recorded from a hook inside the lock section that performs it.
+type revent struct {
+	kind  string // load | acq | acqfail | fetched | done | failed | deliver | cancel
+	ctx   string
+	hash  cid.Cid
+	heads []ipfslog.Entry
 }
 
 type World struct {
@@ -139,6 +149,7 @@ type World struct {
 	quiesceTimeout time.Duration
 	indexHeld      bool // an op is running under withIndexHeld
 	slotBase       map[interface{}]int
+	reqSeq         int
 	revTie         bool // scenario opened its stores with a custom sort function (ties by clock id, reversed)
 	lenBefore      int // log length before the write in progress
 	heldFirst      map[string]chan struct{}
@@ -267,11 +278,27 @@ func (w *World) hook(name string, args ...interface{}) {
 	case "replicator.load.queued":
 		if s, ok := w.byRepl[ptrOf(args[0])]; ok {
 			a := w.acctOf(s)
-			a.loadQ = append(a.loadQ, append([]ipfslog.Entry(nil), args[2].([]ipfslog.Entry)...))
+			hs := append([]ipfslog.Entry(nil), args[2].([]ipfslog.Entry)...)
+			a.loadQ = append(a.loadQ, hs)
+			name := "live"
+			if c, ok := args[1].(context.Context); ok {
+				if v, ok := c.Value(reqKey{}).(string); ok {
+					name = v
+				}
+			}
+			a.rev = append(a.rev, revent{kind: "load", ctx: name, heads: hs})
+		}
+	case "replicator.slot.acquired", "replicator.slot.failed", "replicator.next.queued", "replicator.done", "replicator.failed":
+		if s, ok := w.byRepl[ptrOf(args[0])]; ok {
+			kind := map[string]string{"replicator.slot.acquired": "acq", "replicator.slot.failed": "acqfail",
+				"replicator.next.queued": "fetched", "replicator.done": "done", "replicator.failed": "failed"}[name]
+			a := w.acctOf(s)
+			a.rev = append(a.rev, revent{kind: kind, hash: args[1].(cid.Cid)})
 		}
 	case "store.loadend.done":
 		logs := args[1].([]ipfslog.Log)
 		w.acctOf(args[0]).done[logsID(logs)] = true
+		w.acctOf(args[0]).rev = append(w.acctOf(args[0]).rev, revent{kind: "deliver"})
 	}
 	f := w.hookFn
 	var wait chan struct{}
@@ -363,6 +390,26 @@ func ptrOf(x interface{}) uintptr {
 		return v.Pointer()
 	}
 	return 0
+}
+
+// recordCancel notes the end of a request context in every replicator's step sequence.
+func (w *World) recordCancel(name string) {
+	w.mu.Lock()
+	for _, a := range w.acct {
+		a.rev = append(a.rev, revent{kind: "cancel", ctx: name})
+	}
+	w.mu.Unlock()
+}
+
+// reqKey carries the script's name of a request context (`ctx=c1`) into the replicator's hooks.
+type reqKey struct{}
+
+// nameOfHash is the scenario-local name of an entry hash (hashes that were never declared print as h?).
+func (w *World) nameOfHash(c cid.Cid) string {
+	if n, ok := w.names[c.String()]; ok {
+		return fmt.Sprintf("e%d", n)
+	}
+	return "e0"
 }
 
 // storeKey identifies a store by the address of its (leading, embedded) BaseStore.
@@ -698,6 +745,22 @@ func (w *World) flushLoadEnds(p int, s iface.Store) {
 	for _, hs := range loads {
 		// what Sync handed to the replicator (one line per Load call)
 		w.printf("loadq %d %s\n", p, w.names2(hs))
+	}
+	w.mu.Lock()
+	revs := a.rev[a.printedR:]
+	a.printedR = len(a.rev)
+	w.mu.Unlock()
+	for _, ev := range revs {
+		switch ev.kind {
+		case "load":
+			w.printf("rev %d load ctx=%s heads=%s\n", p, ev.ctx, w.names2(ev.heads))
+		case "deliver":
+			w.printf("rev %d deliver\n", p)
+		case "cancel":
+			w.printf("rev %d cancel ctx=%s\n", p, ev.ctx)
+		default:
+			w.printf("rev %d %s %s\n", p, ev.kind, w.nameOfHash(ev.hash))
+		}
 	}
 	for _, logs := range batches {
 		parts := make([]string, len(logs))
